@@ -1,0 +1,671 @@
+//! Verification hooks (cargo feature `verif`, off by default).
+//!
+//! Nothing in this module changes pearl's behaviour unless a harness arms it:
+//! * `tap`    - I/O tap: ordered log of file operations with payloads, failpoints, in-flight counter
+//! * `IndexProbe` - thin wrapper exposing the crate-private blob index for differential checks
+//!
+//! The worker probe (`Storage::verif_barrier`, `Storage::verif_worker_alive`) lives next to the
+//! code it observes (`storage/core.rs`, `storage/observer.rs`, `storage/observer_worker.rs`).
+
+/// I/O tap, failpoints and in-flight counter
+pub mod tap {
+    use bytes::Bytes;
+    use std::collections::HashMap;
+    use std::io::{Error as IOError, Result as IOResult};
+    use std::path::{Path, PathBuf};
+    use std::sync::atomic::{AtomicU64, AtomicUsize, Ordering};
+    use std::sync::{Arc, Mutex, MutexGuard, OnceLock};
+
+    /// Kind of file operation
+    #[derive(Debug, Clone, Copy, PartialEq, Eq, Hash, PartialOrd, Ord)]
+    pub enum Kind {
+        Open,
+        Create,
+        Write,
+        WriteAt,
+        Sync,
+        Read,
+        Truncate,
+        Rename,
+        Remove,
+    }
+
+    /// One recorded file operation
+    #[derive(Debug, Clone)]
+    pub struct Event {
+        /// global sequence number (order of completion; per file: order the file saw)
+        pub seq: u64,
+        pub path: Arc<PathBuf>,
+        pub kind: Kind,
+        /// offset passed to pwrite/pread; for `Sync`: the size pearl considers synced afterwards
+        pub offset: u64,
+        pub len: u64,
+        /// payload segments (writes only, when payload recording is on)
+        pub data: Vec<Bytes>,
+        pub ok: bool,
+        /// a failpoint fired on this operation
+        pub injected: bool,
+        /// bytes a failpoint wrote before failing (short write)
+        pub short_written: u64,
+        /// file length (fstat) before / after the operation; u64::MAX when unknown
+        pub len_before: u64,
+        pub len_after: u64,
+        /// rename target
+        pub path2: Option<PathBuf>,
+        /// rename target existed before the rename
+        pub target_existed: bool,
+    }
+
+    /// What a failpoint does
+    #[derive(Debug, Clone)]
+    pub enum Action {
+        /// fail with this errno, nothing written
+        Fail(i32),
+        /// write this many bytes of the payload, then fail with errno
+        Short(u64, i32),
+        /// sleep for this many milliseconds, then proceed
+        Delay(u64),
+    }
+
+    /// Failpoint: the `nth` (0-based) operation of one of `kinds` on a path ending in `suffix`
+    #[derive(Debug, Clone)]
+    pub struct Fault {
+        pub kinds: Vec<Kind>,
+        pub suffix: String,
+        pub nth: u64,
+        /// fire on every matching operation from `nth` on
+        pub sticky: bool,
+        pub action: Action,
+    }
+
+    #[derive(Debug, Default)]
+    struct FaultState {
+        fault: Option<Fault>,
+        seen: u64,
+        fired: Vec<u64>,
+    }
+
+    #[derive(Debug)]
+    struct Session {
+        prefix: PathBuf,
+        payload: bool,
+        reads: bool,
+        events: Vec<Event>,
+        faults: Vec<FaultState>,
+    }
+
+    #[derive(Debug, Default)]
+    struct Global {
+        sessions: Vec<Session>,
+    }
+
+    static ARMED: AtomicUsize = AtomicUsize::new(0);
+    static SEQ: AtomicU64 = AtomicU64::new(0);
+    static INFLIGHT: AtomicUsize = AtomicUsize::new(0);
+    static INFLIGHT_MAX: AtomicUsize = AtomicUsize::new(0);
+
+    fn global() -> MutexGuard<'static, Global> {
+        static G: OnceLock<Mutex<Global>> = OnceLock::new();
+        G.get_or_init(|| Mutex::new(Global::default()))
+            .lock()
+            .unwrap_or_else(|p| p.into_inner())
+    }
+
+    /// Start recording operations on paths below `prefix`
+    pub fn arm(prefix: &Path, payload: bool, reads: bool) {
+        let mut g = global();
+        g.sessions.retain(|s| s.prefix != prefix);
+        g.sessions.push(Session {
+            prefix: prefix.to_path_buf(),
+            payload,
+            reads,
+            events: Vec::new(),
+            faults: Vec::new(),
+        });
+        ARMED.store(g.sessions.len(), Ordering::SeqCst);
+    }
+
+    /// Stop recording, returns recorded events
+    pub fn disarm(prefix: &Path) -> Vec<Event> {
+        let mut g = global();
+        let mut res = Vec::new();
+        if let Some(pos) = g.sessions.iter().position(|s| s.prefix == prefix) {
+            res = g.sessions.remove(pos).events;
+        }
+        ARMED.store(g.sessions.len(), Ordering::SeqCst);
+        res
+    }
+
+    /// Take the events recorded so far
+    pub fn drain(prefix: &Path) -> Vec<Event> {
+        let mut g = global();
+        g.sessions
+            .iter_mut()
+            .find(|s| s.prefix == prefix)
+            .map(|s| std::mem::take(&mut s.events))
+            .unwrap_or_default()
+    }
+
+    /// Copy of the events recorded so far
+    pub fn snapshot(prefix: &Path) -> Vec<Event> {
+        let g = global();
+        g.sessions
+            .iter()
+            .find(|s| s.prefix == prefix)
+            .map(|s| s.events.clone())
+            .unwrap_or_default()
+    }
+
+    /// Number of events recorded so far
+    pub fn count(prefix: &Path) -> usize {
+        let g = global();
+        g.sessions
+            .iter()
+            .find(|s| s.prefix == prefix)
+            .map(|s| s.events.len())
+            .unwrap_or(0)
+    }
+
+    /// Install failpoints (replaces previous ones, counters restart)
+    pub fn set_faults(prefix: &Path, faults: Vec<Fault>) {
+        let mut g = global();
+        if let Some(s) = g.sessions.iter_mut().find(|s| s.prefix == prefix) {
+            s.faults = faults
+                .into_iter()
+                .map(|f| FaultState {
+                    fault: Some(f),
+                    seen: 0,
+                    fired: Vec::new(),
+                })
+                .collect();
+        }
+    }
+
+    /// Remove failpoints; returns for each failpoint the sequence numbers where it fired
+    pub fn clear_faults(prefix: &Path) -> Vec<Vec<u64>> {
+        let mut g = global();
+        if let Some(s) = g.sessions.iter_mut().find(|s| s.prefix == prefix) {
+            std::mem::take(&mut s.faults)
+                .into_iter()
+                .map(|f| f.fired)
+                .collect()
+        } else {
+            Vec::new()
+        }
+    }
+
+    /// Number of blocking I/O closures created and not yet finished (or dropped)
+    pub fn inflight() -> usize {
+        INFLIGHT.load(Ordering::SeqCst)
+    }
+
+    /// High-water mark of `inflight`
+    pub fn inflight_max() -> usize {
+        INFLIGHT_MAX.load(Ordering::SeqCst)
+    }
+
+    struct InFlight;
+    impl InFlight {
+        fn new() -> Self {
+            let v = INFLIGHT.fetch_add(1, Ordering::SeqCst) + 1;
+            INFLIGHT_MAX.fetch_max(v, Ordering::SeqCst);
+            InFlight
+        }
+    }
+    impl Drop for InFlight {
+        fn drop(&mut self) {
+            INFLIGHT.fetch_sub(1, Ordering::SeqCst);
+        }
+    }
+
+    /// Wraps a blocking closure so that it is counted from creation until it finished
+    /// (or was dropped without running)
+    pub(crate) fn track<F, R>(f: F) -> impl FnOnce() -> R + Send + 'static
+    where
+        F: FnOnce() -> R + Send + 'static,
+        R: Send + 'static,
+    {
+        let token = InFlight::new();
+        move || {
+            let _token = token;
+            f()
+        }
+    }
+
+    fn fstat_len(fd: i32) -> u64 {
+        if fd < 0 {
+            return u64::MAX;
+        }
+        // SAFETY: plain fstat on a descriptor owned by the calling File
+        unsafe {
+            let mut st: libc::stat = std::mem::zeroed();
+            if libc::fstat(fd, &mut st) == 0 {
+                st.st_size as u64
+            } else {
+                u64::MAX
+            }
+        }
+    }
+
+    /// Decides what to do with an operation: (injected action, whether to record)
+    fn consult(path: &Path, kind: Kind) -> (Option<Action>, bool, bool) {
+        let mut g = global();
+        for s in g.sessions.iter_mut() {
+            if path.starts_with(&s.prefix) {
+                let record = kind != Kind::Read || s.reads;
+                let payload = s.payload;
+                let seq_now = SEQ.load(Ordering::SeqCst);
+                for fs in s.faults.iter_mut() {
+                    let Some(f) = fs.fault.as_ref() else { continue };
+                    if !f.kinds.contains(&kind) {
+                        continue;
+                    }
+                    if !path.to_string_lossy().ends_with(&f.suffix) {
+                        continue;
+                    }
+                    let n = fs.seen;
+                    fs.seen += 1;
+                    if n == f.nth || (f.sticky && n > f.nth) {
+                        fs.fired.push(seq_now);
+                        return (Some(f.action.clone()), record, payload);
+                    }
+                }
+                return (None, record, payload);
+            }
+        }
+        (None, false, false)
+    }
+
+    fn push_event(mut ev: Event) {
+        let mut g = global();
+        for s in g.sessions.iter_mut() {
+            if ev.path.starts_with(&s.prefix) {
+                ev.seq = SEQ.fetch_add(1, Ordering::SeqCst);
+                s.events.push(ev);
+                return;
+            }
+        }
+    }
+
+    /// Per-open-file tag: path (resolved from the descriptor), descriptor, order lock
+    #[derive(Debug)]
+    pub(crate) struct FileTag {
+        path: Arc<PathBuf>,
+        fd: i32,
+        lock: Mutex<()>,
+    }
+
+    impl FileTag {
+        pub(crate) fn from_fd(fd: i32) -> Self {
+            let path = std::fs::read_link(format!("/proc/self/fd/{}", fd)).unwrap_or_default();
+            Self {
+                path: Arc::new(path),
+                fd,
+                lock: Mutex::new(()),
+            }
+        }
+
+        /// Called inside the I/O closure right before a write-type syscall. Returns a guard that
+        /// records the event when dropped (result inferred from the file length), or an injected error.
+        pub(crate) fn begin(
+            &self,
+            kind: Kind,
+            offset: u64,
+            segs: Vec<Bytes>,
+        ) -> IOResult<Option<OpGuard<'_>>> {
+            if ARMED.load(Ordering::Relaxed) == 0 {
+                return Ok(None);
+            }
+            let (action, record, payload) = consult(&self.path, kind);
+            if !record && action.is_none() {
+                return Ok(None);
+            }
+            let len: u64 = segs.iter().map(|s| s.len() as u64).sum();
+            let lock = self.lock.lock().unwrap_or_else(|p| p.into_inner());
+            let len_before = fstat_len(self.fd);
+            let mut ev = Event {
+                seq: 0,
+                path: self.path.clone(),
+                kind,
+                offset,
+                len,
+                data: if payload { segs.clone() } else { Vec::new() },
+                ok: true,
+                injected: false,
+                short_written: 0,
+                len_before,
+                len_after: u64::MAX,
+                path2: None,
+                target_existed: false,
+            };
+            match action {
+                None => {}
+                Some(Action::Delay(ms)) => {
+                    drop(lock);
+                    std::thread::sleep(std::time::Duration::from_millis(ms));
+                    let lock = self.lock.lock().unwrap_or_else(|p| p.into_inner());
+                    ev.len_before = fstat_len(self.fd);
+                    return Ok(Some(OpGuard {
+                        tag: self,
+                        ev: Some(ev),
+                        _lock: lock,
+                    }));
+                }
+                Some(Action::Fail(errno)) => {
+                    ev.ok = false;
+                    ev.injected = true;
+                    ev.len_after = len_before;
+                    if record {
+                        push_event(ev);
+                    }
+                    return Err(IOError::from_raw_os_error(errno));
+                }
+                Some(Action::Short(m, errno)) => {
+                    let mut left = m.min(len);
+                    let mut off = offset;
+                    for s in segs.iter() {
+                        if left == 0 {
+                            break;
+                        }
+                        let n = (s.len() as u64).min(left) as usize;
+                        // SAFETY: pwrite of a valid buffer to the descriptor of this File
+                        let w = unsafe {
+                            libc::pwrite(self.fd, s.as_ptr() as *const libc::c_void, n, off as i64)
+                        };
+                        if w < 0 {
+                            break;
+                        }
+                        off += w as u64;
+                        left -= w as u64;
+                        ev.short_written += w as u64;
+                    }
+                    ev.ok = false;
+                    ev.injected = true;
+                    ev.len_after = fstat_len(self.fd);
+                    if record {
+                        push_event(ev);
+                    }
+                    return Err(IOError::from_raw_os_error(errno));
+                }
+            }
+            if !record {
+                return Ok(None);
+            }
+            Ok(Some(OpGuard {
+                tag: self,
+                ev: Some(ev),
+                _lock: lock,
+            }))
+        }
+
+        /// Called at call time (not inside the closure) for reads and positional rewrites
+        pub(crate) fn note(&self, kind: Kind, offset: u64, segs: Vec<Bytes>, len: u64) -> IOResult<()> {
+            if ARMED.load(Ordering::Relaxed) == 0 {
+                return Ok(());
+            }
+            let (action, record, payload) = consult(&self.path, kind);
+            let mut ev = Event {
+                seq: 0,
+                path: self.path.clone(),
+                kind,
+                offset,
+                len,
+                data: if payload { segs } else { Vec::new() },
+                ok: true,
+                injected: false,
+                short_written: 0,
+                len_before: u64::MAX,
+                len_after: u64::MAX,
+                path2: None,
+                target_existed: false,
+            };
+            match action {
+                Some(Action::Fail(errno)) | Some(Action::Short(_, errno)) => {
+                    ev.ok = false;
+                    ev.injected = true;
+                    if record {
+                        push_event(ev);
+                    }
+                    Err(IOError::from_raw_os_error(errno))
+                }
+                Some(Action::Delay(ms)) => {
+                    std::thread::sleep(std::time::Duration::from_millis(ms));
+                    if record {
+                        push_event(ev);
+                    }
+                    Ok(())
+                }
+                None => {
+                    if record {
+                        push_event(ev);
+                    }
+                    Ok(())
+                }
+            }
+        }
+    }
+
+    /// Guard of one in-progress write-type operation
+    pub(crate) struct OpGuard<'a> {
+        tag: &'a FileTag,
+        ev: Option<Event>,
+        _lock: MutexGuard<'a, ()>,
+    }
+
+    impl<'a> Drop for OpGuard<'a> {
+        fn drop(&mut self) {
+            if let Some(mut ev) = self.ev.take() {
+                ev.len_after = fstat_len(self.tag.fd);
+                ev.ok = match ev.kind {
+                    Kind::Write | Kind::WriteAt => {
+                        if std::thread::panicking() {
+                            false
+                        } else if ev.len_before == u64::MAX || ev.len_after == u64::MAX {
+                            true
+                        } else {
+                            // pwrite at offset (plain file) or append (O_APPEND file)
+                            ev.len_after >= ev.offset + ev.len
+                                || ev.len_after >= ev.len_before + ev.len
+                        }
+                    }
+                    _ => !std::thread::panicking(),
+                };
+                push_event(ev);
+            }
+        }
+    }
+
+    /// Operations on paths (open, create, truncate, rename, remove)
+    pub(crate) fn path_op(kind: Kind, path: &Path, path2: Option<&Path>) -> IOResult<()> {
+        if ARMED.load(Ordering::Relaxed) == 0 {
+            return Ok(());
+        }
+        let (action, record, _) = consult(path, kind);
+        let mut ev = Event {
+            seq: 0,
+            path: Arc::new(path.to_path_buf()),
+            kind,
+            offset: 0,
+            len: 0,
+            data: Vec::new(),
+            ok: true,
+            injected: false,
+            short_written: 0,
+            len_before: std::fs::metadata(path).map(|m| m.len()).unwrap_or(u64::MAX),
+            len_after: u64::MAX,
+            path2: path2.map(|p| p.to_path_buf()),
+            target_existed: path2.map(|p| p.exists()).unwrap_or(false),
+        };
+        match action {
+            Some(Action::Fail(errno)) | Some(Action::Short(_, errno)) => {
+                ev.ok = false;
+                ev.injected = true;
+                if record {
+                    push_event(ev);
+                }
+                Err(IOError::from_raw_os_error(errno))
+            }
+            Some(Action::Delay(ms)) => {
+                std::thread::sleep(std::time::Duration::from_millis(ms));
+                if record {
+                    push_event(ev);
+                }
+                Ok(())
+            }
+            None => {
+                if record {
+                    push_event(ev);
+                }
+                Ok(())
+            }
+        }
+    }
+
+    /// Payload segments of a `WritableData`
+    pub(crate) fn segs(w: &crate::io::WritableData) -> Vec<Bytes> {
+        match w {
+            crate::io::WritableData::Single(b) => vec![b.clone()],
+            crate::io::WritableData::Double(a, b) => vec![a.clone(), b.clone()],
+        }
+    }
+
+    #[allow(dead_code)]
+    fn _unused(_: HashMap<u8, u8>) {}
+}
+
+pub use index_probe::IndexProbe;
+
+mod index_probe {
+    use crate::blob::index::IndexTrait;
+    use crate::prelude::*;
+
+    /// Plain view of a record header: (timestamp, is_deleted, blob_offset, data_size, meta_size)
+    pub type ProbeHeader = (u64, bool, u64, u64, u64);
+
+    /// Wrapper over the crate-private blob index (in-memory <-> B+tree file)
+    #[derive(Debug)]
+    pub struct IndexProbe<K>
+    where
+        for<'a> K: Key<'a>,
+    {
+        index: crate::blob::index::Index<K>,
+    }
+
+    fn view(h: &RecordHeader) -> ProbeHeader {
+        (
+            h.timestamp(),
+            h.is_deleted(),
+            h.blob_offset(),
+            h.data_size(),
+            h.meta_size(),
+        )
+    }
+
+    impl<K> IndexProbe<K>
+    where
+        for<'a> K: Key<'a> + 'static,
+    {
+        /// New in-memory index that will be dumped to `path` (`<prefix>.<id>.index`)
+        pub fn new(path: &Path, bloom: Option<BloomConfig>) -> Result<Self> {
+            let name = crate::blob::FileName::from_path(path)?;
+            let config = IndexConfig {
+                bloom_config: bloom,
+                recreate_index_file: true,
+            };
+            Ok(Self {
+                index: crate::blob::index::Index::new(name, IoDriver::new_sync(), config),
+            })
+        }
+
+        /// Open an existing index file
+        pub async fn from_file(path: &Path, bloom: Option<BloomConfig>, blob_size: u64) -> Result<Self> {
+            let name = crate::blob::FileName::from_path(path)?;
+            let config = IndexConfig {
+                bloom_config: bloom,
+                recreate_index_file: true,
+            };
+            let index =
+                crate::blob::index::Index::from_file(name, config, IoDriver::new_sync(), blob_size)
+                    .await?;
+            Ok(Self { index })
+        }
+
+        /// Push a header built from plain values
+        pub fn push(&self, key: &K, ts: u64, deleted: bool, blob_offset: u64, data_size: u64) -> Result<()> {
+            let mut h = RecordHeader::new(key.to_vec(), ts, 8, data_size, 0);
+            if deleted {
+                h.mark_as_deleted()?;
+            }
+            // same layout arithmetic as `PartiallySerializedRecord::finalize_with_checksum`
+            let mut raw = h.to_raw()?;
+            let len = raw.len();
+            raw[len - 24..len - 16].copy_from_slice(&blob_offset.to_le_bytes());
+            raw[len - 4..].copy_from_slice(&0u32.to_le_bytes());
+            let checksum = CRC32C.checksum(&raw);
+            h.set_offset_checksum(blob_offset, checksum);
+            self.index.push(key, h)
+        }
+
+        /// Dump to file
+        pub async fn dump(&mut self, blob_size: u64) -> Result<usize> {
+            self.index.dump(blob_size).await
+        }
+
+        /// Load the file index back into memory
+        pub async fn load(&mut self, blob_size: u64) -> Result<()> {
+            self.index.load(blob_size).await
+        }
+
+        /// Is the index in the on-disk state
+        pub fn on_disk(&self) -> bool {
+            self.index.on_disk()
+        }
+
+        /// Records count
+        pub fn count(&self) -> usize {
+            self.index.count()
+        }
+
+        /// Latest header of the key: Ok(None) = not found
+        pub async fn get_latest(&self, key: &K) -> Result<Option<ProbeHeader>> {
+            Ok(match self.index.get_latest(key).await? {
+                ReadResult::Found(h) => Some(view(&h)),
+                ReadResult::Deleted(ts) => Some((ts.into(), true, u64::MAX, 0, 0)),
+                ReadResult::NotFound => None,
+            })
+        }
+
+        /// All headers of the key (cut after the first deletion marker)
+        pub async fn get_all_with_deletion_marker(&self, key: &K) -> Result<Vec<ProbeHeader>> {
+            Ok(self
+                .index
+                .get_all_with_deletion_marker(key)
+                .await?
+                .iter()
+                .map(view)
+                .collect())
+        }
+
+        /// All headers of the key without the marker
+        pub async fn get_all(&self, key: &K) -> Result<Vec<ProbeHeader>> {
+            Ok(self.index.get_all(key).await?.iter().map(view).collect())
+        }
+
+        /// Filter answer of the index (range + bloom), `false` = definitely absent
+        pub async fn filter_may_contain(&self, key: &K) -> bool {
+            use crate::filter::FilterTrait;
+            match self.index.contains_key_fast(key) {
+                Some(v) => v,
+                None => {
+                    self.index.get_filter().contains(&self.index, key).await
+                        != FilterResult::NotContains
+                }
+            }
+        }
+
+        /// Off-load the bloom buffer (only possible in the on-disk state)
+        pub fn offload_filter(&mut self) -> usize {
+            self.index.offload_filter()
+        }
+    }
+}
